@@ -21,10 +21,24 @@ func quoteForms(name string) []string {
 var brokenInner = []string{"SELECT 1 ORDER x", "SELECT 1 GROUP x", "WITH", "SELECT", "1 +", "(", "x AS", "", "SELECT 1 UNION", "*", "x, ", "DISTINCT", "SELECT 1 LIMIT", "x ->", "[1,", "CASE WHEN",
 	"SELECT 1 FROM", "1 IN (", "INTERVAL", "x FROM y", "y, 1, ", "SELECT * FROM (SELECT", "SELECT 1", "x", "1, 2"}
 
-var callSuffixes = []string{" AS v", " v", ".x", "[1]", "::Int8", " + 1", "", " IN (1)", " BETWEEN 1 AND 2", " IS NULL", " OVER w", "(1)", " AS v, 2", " FILTER (WHERE 1)", ".1", " OVER (", " IGNORE NULLS", " EXCEPT x"}
+var callSuffixes = []string{" AS v", " v", ".x", "[1]", "::Int8", " + 1", "", " IN (1)", " BETWEEN 1 AND 2", " IS NULL", " OVER w", "(1)", " AS v, 2", " FILTER (WHERE 1)", ".1", " OVER (", " IGNORE NULLS", " EXCEPT x", ".1e5", ".99999999999999999999", ".1.2e3", ".0x1", " .5"}
 
 var callContexts = [][2]string{{"SELECT ", ""}, {"SELECT 1 WHERE ", ""}, {"SELECT * FROM ", ""}, {"SELECT 1 ORDER BY ", ""}, {"SELECT x, ", " FROM t"}, {"INSERT INTO t SELECT ", ""}, {"SELECT 1 FROM t JOIN ", " ON 1"},
 	{"ALTER TABLE t UPDATE a = ", " WHERE 1"}, {"CREATE TABLE t (a Int8 DEFAULT ", ")"}, {"SELECT 1 GROUP BY ", ""}}
+
+// exprShapes: one expression of every kind the parser and the printer treat specially, plain and nested in arrays / tuples,
+// with unary operators on literals and on non-literals
+var exprShapes = func() []string {
+	atoms := []string{"1", "-1", "- -1", "-x", "x", "1.5", "-1.5", "'a'", "-'a'", "NULL", "-NULL", "f(x)", "-f(x)", "(1)", "-(1)", "(x)", "-(x)", "+1", "+x", "NOT x", "18446744073709551616", "-9223372036854775808",
+		"-9223372036854775809", "0x1F", "-0x1F", "1e3", "inf", "-inf", "nan", "true", "-true", "t.a", "-t.a", "a[1]", "t.1", "t.1.2", "x::Int8", "-1::Int8", "CAST(1 AS Int8)", "{p:UInt8}", "$$h$$", "INTERVAL 1 DAY",
+		"CASE WHEN 1 THEN 2 END", "(SELECT 1)", "-(SELECT 1)", "x -> x", "a + b", "-(a + b)", "a AND b", "x IN (1)", "x BETWEEN 1 AND 2", "x IS NULL", "*", "t.*", "COLUMNS('a')", "DATE '2020-01-01'", "[]", "()", "tuple()", "if(1, 2, 3)", "count(*)", "sum(x) OVER ()"}
+	out := append([]string{}, atoms...)
+	for i, a := range atoms {
+		b := atoms[(i*7+3)%len(atoms)]
+		out = append(out, "["+a+"]", "[1, "+a+"]", "("+a+", 2)", "(1, "+a+", "+b+")", "[["+a+"], ["+b+"]]", "(1, ("+a+", 'z'))", "["+a+", "+b+"]::Array(String)", "-["+a+"]", "tuple("+a+", "+b+")", "array("+a+")")
+	}
+	return out
+}()
 
 // scriptPool: small statements whose combinations in one script exercise the code that looks across statements.
 var scriptPool = []string{"INSERT INTO t VALUES (1)", "INSERT INTO t (a, b) VALUES (1, 'x'), (2, 'y')", "INSERT INTO t SELECT 1", "INSERT INTO t FORMAT CSV", "INSERT INTO FUNCTION file('a') SELECT 1",
@@ -138,6 +152,22 @@ func fuzzSpace2(w *W, run func(input, desc string)) {
 						run(c[0]+qn+"("+inner+closer+suf+c[1], "recovery")
 					}
 				}
+			}
+		}
+	}
+	// (a2) every expression shape as a select item, alone and after names (tuple access, subscripts, casts, aliases)
+	for i, e := range exprShapes {
+		run("SELECT "+e, "expr")
+		run("SELECT "+e+" FROM t WHERE "+e, "expr")
+		for _, suf := range callSuffixes {
+			run("SELECT "+e+suf, "expr-suffix")
+		}
+		// … and after an INSERT in one script (ExplainStatements prints a simple SELECT after an INSERT specially)
+		for j, ins := range []string{"INSERT INTO t VALUES (1)", "INSERT INTO t SELECT 1", "INSERT INTO t FORMAT CSV"} {
+			run(ins+"; SELECT "+e, "insert-then-select")
+			if (i+j)%3 == 0 {
+				run(ins+"; SELECT 2; SELECT "+e+"; SELECT 3", "insert-then-select")
+				run(ins+";\nSELECT "+e+" AS a", "insert-then-select")
 			}
 		}
 	}
